@@ -54,6 +54,10 @@ def c01():
         J("c01_two_archetypes_destroy_3_2", T, 300, what="two populated archetypes, capacities 3/2", bounds=b, assumes=a),
         J("c01_destroy_typed_foo_5", T, 900, what="destroy step N=5", bounds=b, assumes=a, timeout=3000),
         J("c01_create_foo_5", T, 900, what="create step N=5", bounds=b, assumes=a, timeout=3000),
+        # the boundary the step harnesses exclude by assumption: at generation u32::MAX the release must panic (default
+        # features) — a wrapped generation would make the FIRST handle ever issued for that position resolve again
+        J("c08_overflow_slot_typed_foo_3", Q, 60, what="C01 at the generation boundary: releasing a position whose generation is u32::MAX panics instead of wrapping (a wrap would let a destroyed handle resolve again)", bounds=b, assumes=(INV_ASSUME,), expect_fail=EXPECT_OVERFLOW),
+        J("c08_overflow_arch_typed_foo_3", Q, 60, what="same for the archetype version (direct handles)", bounds=b, assumes=(INV_ASSUME,), expect_fail=EXPECT_OVERFLOW),
     ]
     return jobs
 
@@ -96,6 +100,15 @@ def c02():
         j("c02_create_wide_2", T, 300, "create on 16 columns"),
         j("c02_grow_wide_1", Q, 300, "growth 1->4 on 16 columns"),
         j("c02_destroy_wide_3", T, 500, "destroy on 16 columns, N=3"),
+        # which COLUMN a closure parameter is bound to when the closure lists its parameters in another order than
+        # the archetype declares its components (positional pairing inside the query generators)
+        j("c05_iter_one_of_first", Q, 200, "query with a OneOf parameter written before a plain component parameter: every parameter reads its own column"),
+        Job(harness="c05::three::c05_one_of3_find", tier=Q, cost=150, what="ecs_find! with an arity-3 OneOf first and a plain component after it, archetypes declaring the columns in different orders", bounds=b, assumes=a),
+        Job(harness="c05::three::c05_one_of3_iter_borrow_middle", tier=T, cost=150, what="ecs_iter_borrow! with a mutable arity-3 OneOf in the middle", bounds=b, assumes=a),
+        j("c02_paths_agree_zf_2", Q, 200, "all read paths agree on an archetype whose FIRST column is zero-sized"),
+        j("c02_write_read_zf_2", T, 300, "every write path, ZST-first archetype"),
+        j("c02_destroy_zf_3", T, 200, "destroy step, ZST-first archetype"),
+        j("c02_grow_zf_2", T, 200, "growth 2->6, ZST-first archetype"),
     ]
 
 
@@ -164,6 +177,8 @@ def c04():
         j("c04_iter_destroy_2", T, 100, "ecs_iter_destroy! N=2"),
         J("c04_refused_clone_2", Q, 60, what="a clone refused because a column is mutably borrowed refuses BEFORE cloning anything (no leaked clones)", bounds=b, assumes=a, expect_fail=(("placeholder message", "panic_already"),)),
         j("c04_history", Q, 60, "public-API history without hooks (cross-check of the step argument)"),
+        j("c04_mixed_drop", Q, 100, "archetypes mixing a column with drop glue and plain-data columns (both orders), 0..2 entities each: every live token dropped exactly once with the world (public API)"),
+        j("c04_mixed_clone_drop", Q, 150, "same with a clone dropped first: the clone's tokens once, the original's untouched"),
         J("c10_overflow_destroy_tokens_any_3", Q, 120, what="counter-overflow panic inside destroy: nothing dropped by the failed destroy; world owns every token exactly once afterwards (state at the panic point; natively after catch_unwind + world drop)",
           bounds=b, assumes=a + STUBS, stubbing=True, role="overflow_mid_destroy"),
         J("c10_overflow_destroy_tokens_typed_2", T, 100, what="same through Archetype::destroy(Entity)", bounds=b, assumes=a + STUBS, stubbing=True, role="overflow_mid_destroy"),
@@ -194,6 +209,11 @@ def c06():
         j("c06_after_destroy_arch_iter_3", T, 200, "same through Archetype::iter"),
         j("c06_after_create_iter_3", T, 200, "create then ecs_iter!"),
         j("c06_after_create_slices_3", T, 150, "create then slices"),
+        j("c06_arch_iter_zf_3", Q, 150, "Archetype::iter / iter_mut / entities() / nth / skip on an archetype whose FIRST column is zero-sized"),
+        j("c06_arch_internal_tri_3", Q, 200, "internal iteration and provided Iterator methods (for_each / fold / last / count / size_hint, next then for_each) on iter and iter_mut: same items, pairing and order as dense cells"),
+        j("c06_arch_internal_zf_3", Q, 200, "same on the archetype whose first column is zero-sized"),
+        j("c06_arch_internal_other_2", T, 150, "same, second archetype of the world, 2 columns"),
+        J("c12_all_zst_archetype", T, 150, what="ZST-only archetype: iteration length on every path equals len() after growth and a destroy", bounds="1..3 entities", assumes=()),
         j("c06_slices_tri_3", Q, 100, "get_slice / borrow_slice / get_all_slices_mut lengths and pairing"),
         j("c06_slices_tri_4", T, 150, "slice accessors N=4"),
     ]
@@ -326,6 +346,8 @@ def c12():
         j("c12_with_capacity_fill_2", T, 80, "same n=2"),
         J("c12_refill_api_2", Q, 200, what="public API only, feature events with never-cleared logs: fill, destroy, refill twice; create_within_capacity Ok iff len < capacity", bounds=b, features=("events",)),
         J("c12_refill_api_2", T, 100, what="same, default features", bounds=b),
+        j("c12_world_capacity_mapping", Q, 100, "World::with_capacity gives every archetype its own requested capacity (symbolic 0..2 each) in a world whose explicit ids are not monotone in declaration order; that many creations fit without growing"),
+        J("c12_all_zst_archetype", Q, 150, what="an archetype whose only column is zero-sized (no component allocation), public API, capacity 3: len/capacity, lookups, every iteration path, re-creation", bounds="1..3 entities, one symbolic destroy", assumes=()),
         j("c12_zero_capacity", Q, 40, "capacity 0: refuse within capacity, grow on create"),
         j("c12_limit_within_capacity", Q, 20, "create_within_capacity at the 2^24 limit refuses, nothing changes"),
         j("c12_limit_create_panics", Q, 20, "create at the 2^24 limit panics 'capacity overflow'", expect_fail=(("capacity overflow", "push"),)),
@@ -361,6 +383,11 @@ def c05_e1():
              ("c05_iter_typed_entity", T), ("c05_iter_borrow_wild_and_direct", T), ("c05_find_unmatched", Q), ("c05_find_borrow_unmatched", T),
              ("c05_iter_destroy_one_of", Q)]
     jobs = [J(h, t, 200, what="real query over a real 4-archetype world: closure runs for exactly the matching archetypes with their own columns", bounds=b, assumes=a) for h, t in names]
+    jobs.append(J("c05_iter_one_of_first", Q, 200, what="OneOf parameter written BEFORE a plain component parameter: each closure parameter is bound to its own column (parameter order is the user's)", bounds=b, assumes=a))
+    jobs.append(J("c05_iter_borrow_one_of_middle", T, 200, what="mutable OneOf between a component and an entity parameter", bounds=b, assumes=a))
+    b3 = "world of 3 archetypes each owning exactly one member of an arity-3 OneOf (at different column positions) plus a shared component; populations <= 1 per archetype"
+    for h, t in (("c05_one_of3_iter_first", Q), ("c05_one_of3_iter_borrow_middle", Q), ("c05_one_of3_iter_mut_between", T), ("c05_one_of3_find", Q), ("c05_one_of3_find_borrow", T), ("c05_one_of3_iter_destroy", T)):
+        jobs.append(Job(harness="c05::three::" + h, tier=t, cost=150, what="arity-3 OneOf at the first / middle / last position of the parameter list: bound to the archetype's own member column, the plain parameter to its own", bounds=b3, assumes=a))
     jobs.append(J("c16_iter_destroy_cfg_component", Q, 100, what="ecs_iter_destroy! with a cfg-disabled component parameter acts on every archetype the erased query matches", bounds=b, assumes=a))
     jobs.append(J("c16_query_cfg_mixed_predicates", T, 150, what="all five macros with cfg-decorated parameters", bounds=b, assumes=a))
     return jobs
@@ -488,7 +515,7 @@ PROPERTIES = {
     "C02": dict(jobs=c02, title="Every access path returns the entity's own, latest component values"),
     "C03": dict(e2=True, jobs=c03, title="Arbitrary, forged or foreign handles are memory-safe and never match by accident"),
     "C05": dict(e2=True, jobs=c05_e1, title="Queries act on exactly the matching archetypes"),
-    "C04": dict(jobs=c04, title="Each component value is dropped exactly once"),
+    "C04": dict(e2=True, jobs=c04, title="Each component value is dropped exactly once"),
     "C06": dict(jobs=c06, title="Iteration visits every matching live entity exactly once"),
     "C07": dict(jobs=c07, title="ecs_iter_destroy! visits once, destroys exactly the flagged ones"),
     "C08": dict(e2=True, jobs=c08, title="No handle is ever issued twice"),
